@@ -1,7 +1,7 @@
 (* C20 — the par command's exit status reflects the outcome.
    Model: Model/CLI.v (cmd/par/main.go: Go flag parsing as used there, command and extension dispatch,
    result-to-status mapping) over the library models. *)
-From Gopar Require Import Model.Base Model.CRC Model.GoPath Model.FS Model.Par2 Model.Par1 Model.CLI Proofs.CLIFacts Proofs.Par2Facts Proofs.Par2Clean Proofs.Par2Converge Proofs.CLICompose Proofs.Par1RoundTrip Proofs.CLICompose1.
+From Gopar Require Import Model.Base Model.CRC Model.GoPath Model.FS Model.Par2 Model.Par1 Model.CLI Proofs.CLIFacts Proofs.Par2Facts Proofs.Par2Clean Proofs.Par2Converge Proofs.CLICompose Proofs.Par1RoundTrip Proofs.CLICompose1 Proofs.Par2Converge2.
 From Coq Require Import List. Import ListNotations.
 Open Scope N_scope.
 
@@ -172,12 +172,14 @@ Theorem C20_repair2_zero_then_verify2_zero : forall md5 cwd args par dbl fs st',
   forall ds st1, load_all md5 par (io_init fs []) = (Ok ds, st1) ->
   NoDup (map (fun info => file_path par (di_name info)) (d_rec (ds_dec ds))) ->
   NoDup (map di_id (d_rec (ds_dec ds))) ->
-  (forall info data, In info (d_rec (ds_dec ds)) -> recorded md5 info data ->
-       wf_bytes data /\ di_pairs info = pairs_of md5 (N.to_nat (d_slice (ds_dec ds))) data) ->
+  (forall info data, In info (d_rec (ds_dec ds)) -> wf_bytes data -> recorded md5 info data ->
+       di_pairs info = pairs_of md5 (N.to_nat (d_slice (ds_dec ds))) data) ->
+  (forall info dat, In info (d_rec (ds_dec ds)) ->
+       fs_lookup fs (file_path par (di_name info)) = Some dat -> wf_bytes dat) ->
   (forall info, In info (d_rec (ds_dec ds)) ->
        file_path par (di_name info) <> par /\ vol_pattern (Par2.strip_ext par) (file_path par (di_name info)) = false) ->
   forall cwd2 vargs, cli_is_verify2 vargs par -> fst (cli_run md5 cwd2 vargs (io_init (io_fs st') [])) = 0.
-Proof. exact cli_repair2_zero_then_verify_zero. Qed.
+Proof. exact cli_repair2_zero_then_verify_zero2. Qed.
 Print Assumptions C20_repair2_zero_then_verify2_zero.
 
 (* EXIT 0 MEANS SUCCESS, create (PAR1): statuses 0 / 7 (any error) / 2 (a Go panic); status 0 is exactly
